@@ -173,7 +173,7 @@ def check(rep, pid, preset, tier, rule):
     rep.add(states=r.distinct, transitions=r.generated)
     total_in = 0
     metas, n_in = run_batch(rep, pid, preset, cases, 40 if tier == "quick" else 80, 30 if tier == "quick" else 120, 0,
-                            shapes=40 if tier == "quick" else 1000, boundary=6 if tier == "quick" else 40, hints=24 if tier == "quick" else 343)
+                            shapes=48 if tier == "quick" else 1000, boundary=6 if tier == "quick" else 40, hints=24 if tier == "quick" else 343)
     total_in += n_in
     samples = [{"docs": [d["text"] for d in m["docs"]], "rendered": m["rendered"][:400]} for m in metas[:2]]
     os.remove(cases)
